@@ -1,6 +1,7 @@
 """C11 — losing the server degrades to a correct local compile.  Proof: Props/C11.lean over Model/Client.lean (whole decision alphabet);
 tie: real client binary vs scripted fake server (exhaustive over the alphabet) + modeld client; monitors: exit 0 only with the true result;
-real server SIGKILLed at request phases; garbage frames on a live server."""
+real server SIGKILLed at request phases; garbage frames on a live server; the wire format and the per-connection frame reader (Model/Frame.lean:
+request_round_trip, reads_do_not_matter, oversized_frame_ends_connection) tied by h_frames + modeld frame to bincode and to the real server loop."""
 import json, os, re, shutil
 from vlib import *
 import sys_c11
@@ -8,8 +9,19 @@ import sys_c11
 def run(ctx):
     findings = load_findings('C11')
     lean_props(ctx)
-    if not cargo_repo_bins(ctx, ('sccache', 'sccache-dist')): return
     w = ctx.work
+    if cargo_harness(ctx, ['h_frames']):
+        e = env_offline(); e['VERIF_SEED'] = str(ctx.seed)
+        nc, nn = (1500, 250) if ctx.quick() else (60000, 8000)
+        rc, out, dt = sh([harness_bin('h_frames'), 'gen', str(nc), str(nn), f'{w}/frames.trace', f'{w}/frames.json'], env=e, timeout=7200)
+        if rc != 0 or not os.path.exists(f'{w}/frames.json'): ctx.broken.append('h_frames crashed: ' + out[-300:])
+        else:
+            s = json.load(open(f'{w}/frames.json')); run_modeld(ctx, 'frame', f'{w}/frames.trace', 'frame')
+            ctx.evaluations += s['codec_requests_encoded'] * 2 + s['connections']; ctx.distinct_nontrivial += s['connections_ended_by_the_server'] + s['codec_decode_errors']; ctx.samples += s['samples'][:1]
+            ctx.cov['h_frames'] = {k: v for k, v in s.items() if k not in ('monitor_failures', 'samples')}
+            def rpf(fl): return ('monitor-' + fl['kind'], ['h_frames: the real server on an in-memory listener; "conn <reads of the first connection, hex> | <answers>"; a second connection asks for statistics after every read', 'observed: ' + fl['detail']], '\n'.join(fl['ops']))
+            monitor_failures(ctx, s['monitor_failures'], findings, 'h_frames monitor', rpf)
+    if not cargo_repo_bins(ctx, ('sccache', 'sccache-dist')): return
     res = sys_c11.fake_server_cases(os.path.join(w, 'fake'), os.path.join(w, 'client.trace'))
     with open(os.path.join(w, 'client.trace')) as f: rc, out, dt = sh([MODELD, 'client'], stdin=f)
     m = re.search(r'cases: (\d+) mismatches: (\d+)', out)
@@ -25,6 +37,8 @@ def run(ctx):
     res3 = sys_c11.garbage_cases(os.path.join(w, 'garbage'), ctx.seed, 12 if ctx.quick() else 300)
     ctx.evaluations += res3['garbage_frames']; monitor_failures(ctx, res3['fails'], findings, 'garbage-frame monitor', rp)
     ctx.cov.update(fake_server_cases=res['fake_server_cases'], kill_cases=res2['kill_cases'], garbage_frames=res3['garbage_frames'], requests_ok_alongside_garbage=res3['requests_ok_alongside'])
+    ctx.rules.append('h_frames: codec — generated requests (all five kinds, compile requests with 0-4 arguments and 0-3 environment pairs of arbitrary bytes) encoded by bincode against encReq; their encodings mutated (byte changed, cut, extended, length fields overwritten incl. 2^64-1) and noise decoded by bincode against decReq; '
+                     'connections — streams of 1-5 frames (valid, mutated, noise, bare tags), oversized and 2^31+ length prefixes, streams cut mid-frame, cut into reads of 1 byte .. everything, on the real server next to a witness connection; non-trivial = connections the server ended, decode errors')
     ctx.rules.append('fake server: 2 (ignore flag) x {7 first-response scripts; for CompileStarted 11 second-read scripts incl. EOF in header / partial header / body, reset, garbage} = 34 cases, the whole alphabet; '
                      'kills: SIGKILL during compiler detection (before the ack), preprocessing, compilation, and no server running; garbage: random bytes, oversized length, undecodable and short frames')
     ctx.assumptions += ['which io::ErrorKind the kernel reports for a killed peer is an input symbol (EOF vs reset); a reset after the ack is an sccache error unless SCCACHE_IGNORE_SERVER_IO_ERROR=1 — allowed by the last sentence of the statement, recorded']
